@@ -15,6 +15,10 @@
 //	dgh <algo> <mode> <k> <in> <dig> history: 12 × (stream call whose reader fails after k bytes — mode errafter |
 //	                                witherr | timeout | panic —, then a valid call of the same and of every other
 //	                                stream helper on <in>) -> fail=<err|nil|panic> st=<digest> rounds=same others=ok
+//	dgs <algo> <in> <d0..d4>        seekable readers (bytes.Reader, strings.Reader, io.SectionReader, *os.File) already
+//	                                advanced by 0, 1, len/2, len-1, len bytes via Read and via Seek; d_i = stdlib digest
+//	                                of the remaining bytes -> a0=… a4=<digest> (MIXED:… if the eight readers disagree
+//	                                or a reader is not left at its end)
 //	dgz <algo> <n> <seed> <digest>  the same on a generated n-byte input (n around 4096, 32768, …) -> b= st=… mod=
 //	hm <algo> <key> <data> <mac>    hashz.Hmac           -> ss= sb= bs= bb= ts= tss= mod=
 //	b64e <enc> <in> <stdlib out>    Base64Encode         -> s= b= ts= tss= mod=
@@ -42,6 +46,7 @@ import (
 	"hash"
 	"io"
 	"net/netip"
+	"os"
 	"strconv"
 	"strings"
 	"testing/iotest"
@@ -293,6 +298,53 @@ func bigInput(n, seed int) []byte {
 		b[i] = byte(x >> 24)
 	}
 	return b
+}
+
+// ---- seekable readers (hidden input: the read offset)
+
+var seekKinds = []string{"bytes.Reader", "strings.Reader", "io.SectionReader", "os.File"}
+
+// seekAdvances: 0, 1, len/2, len-1, len (clamped to 0..len).
+func seekAdvances(n int) []int {
+	c := func(k int) int {
+		if k < 0 {
+			return 0
+		}
+		if k > n {
+			return n
+		}
+		return k
+	}
+	return []int{0, c(1), c(n / 2), c(n - 1), n}
+}
+
+func newSeekable(kind string, s []byte) (io.ReadSeeker, func(), error) {
+	nop := func() {}
+	switch kind {
+	case "bytes.Reader":
+		return bytes.NewReader(clone(s)), nop, nil
+	case "strings.Reader":
+		return strings.NewReader(string(s)), nop, nil
+	case "io.SectionReader":
+		// a section in the middle of a larger buffer
+		big := append(append([]byte("prefix-"), s...), []byte("-suffix")...)
+		return io.NewSectionReader(bytes.NewReader(big), 7, int64(len(s))), nop, nil
+	default:
+		f, err := os.CreateTemp("", "c15-seek-*")
+		if err != nil {
+			return nil, nop, err
+		}
+		cleanup := func() { f.Close(); os.Remove(f.Name()) }
+		if _, err := f.Write(s); err != nil {
+			cleanup()
+			return nil, nop, err
+		}
+		if _, err := f.Seek(0, io.SeekStart); err != nil {
+			cleanup()
+			return nil, nop, err
+		}
+		return f, cleanup, nil
+	}
 }
 
 // ---- failing readers (history stream)
@@ -606,6 +658,60 @@ func implOp(lg *ledger, t []string) string {
 			}
 		}
 		return first + " rounds=" + rounds + " others=" + others
+	case t[0] == "dgs" && len(t) == 8:
+		// hidden input: the read offset of a seekable reader. Four kinds of seekable readers
+		// (bytes.Reader, strings.Reader, io.SectionReader, *os.File), already advanced by
+		// 0, 1, len/2, len-1, len bytes — through Read and through Seek — when handed to the
+		// stream helper: it must hash the REMAINING bytes and leave the reader at its end.
+		a := digestByName(t[1])
+		if a == nil || a.stream == nil {
+			return "bad-op"
+		}
+		s := arg(2)
+		for i := 3; i < 8; i++ {
+			_ = arg(i)
+		}
+		advs := seekAdvances(len(s))
+		parts := make([]string, 0, len(advs))
+		for i, k := range advs {
+			val, bad := "", ""
+			for _, kind := range seekKinds {
+				for _, via := range []string{"read", "seek"} {
+					rd, closeFn, err := newSeekable(kind, s)
+					if err != nil {
+						continue // no temp file available: an environment problem, not a verdict
+					}
+					if via == "read" {
+						_, err = io.ReadFull(rd, make([]byte, k))
+					} else {
+						_, err = rd.Seek(int64(k), io.SeekStart)
+					}
+					if err != nil {
+						bad = kind + "/" + via + ":advance-failed"
+					}
+					o, err := a.stream(rd)
+					lg.keep(o)
+					v := hx(o)
+					if err != nil {
+						v = "err"
+					}
+					if pos, err := rd.Seek(0, io.SeekCurrent); err != nil || pos != int64(len(s)) {
+						bad = fmt.Sprintf("%s/%s:offset-after=%d", kind, via, pos)
+					}
+					closeFn()
+					if val == "" {
+						val = v
+					} else if v != val && bad == "" {
+						bad = fmt.Sprintf("%s/%s:%s", kind, via, v)
+					}
+				}
+			}
+			if bad != "" {
+				val = "MIXED:" + strings.ReplaceAll(bad, " ", "_") + ":first=" + val
+			}
+			parts = append(parts, fmt.Sprintf("a%d=%s", i, val))
+		}
+		return strings.Join(parts, " ")
 	case t[0] == "dgz" && len(t) == 5:
 		// large input generated from (n, seed): only the stream helpers and the []byte one-shot form
 		a := digestByName(t[1])
@@ -831,6 +937,19 @@ func checkOp(t []string, out string) *core.Failure {
 		if m["others"] != "ok" {
 			return fail("digest-stream-after-failure-"+m["others"], "after a failed %s stream call the %s stream helper returned a wrong digest", t[1], m["others"])
 		}
+	case "dgs":
+		a := digestByName(t[1])
+		s, _ := unhx(t[2])
+		for i, k := range seekAdvances(len(s)) {
+			sum := a.sum(s[k:])
+			if hx(sum) != t[3+i] {
+				return fail("harness-stale-digest", "the digest carried by the line is not the standard library's")
+			}
+			want := hx([]byte(hex.EncodeToString(sum)))
+			if got := m[fmt.Sprintf("a%d", i)]; got != want {
+				return fail("digest-stream-seekable-"+t[1], "a seekable reader over %d bytes already advanced by %d bytes: the %s stream helper must return the digest %s of the remaining %d bytes and leave the reader at its end; got %s", len(s), k, t[1], readable(want), len(s)-k, got)
+			}
+		}
 	case "dgz":
 		a := digestByName(t[1])
 		n, _ := strconv.Atoi(t[2])
@@ -891,7 +1010,7 @@ func nonTrivial(c core.Case, out []string) bool {
 			if len(t[1]) >= 4 {
 				return true
 			}
-		case "dg", "dgz", "dgh", "hm", "b64e", "b64d":
+		case "dg", "dgz", "dgh", "dgs", "hm", "b64e", "b64d":
 			return true
 		}
 	}
